@@ -158,10 +158,13 @@ when it became empty. -/
 def pruneVal (g : I.M → I.M) (m : I.M) : Option I.M :=
   if I.isEmpty (g m) then none else some (g m)
 
+/-- One visit of the closure: `if let Some(value) = matcher.remove(id) { *removed_in_tree = Some(value) }`. -/
+def hitStep (id : String) (acc : Option Route) (m : I.M) : Option Route :=
+  ((I.remove id m).2).orElse (fun _ => acc)
+
 /-- `removed_in_tree`: the `RefCell` written by the closure for every bucket that held the route
 (the last writer wins; the buckets are visited in tree order). -/
-def lastHit (id : String) (ms : List I.M) : Option Route :=
-  ms.foldl (fun acc m => match (I.remove id m).2 with | some r => some r | none => acc) none
+def lastHit (id : String) (ms : List I.M) : Option Route := ms.foldl (hitStep I id) none
 
 /-- `HostMatcher::remove`. -/
 def HostT.remove (id : String) (s : HostTState I) : HostTState I × Option Route :=
